@@ -433,3 +433,28 @@ CORPUS += [
     V("C13", "eq-beam-rename", DECP, "batch_beam_sequence", "bseq", None, count=99),
     V("C13", "eq-beam-commute", DECP, "        batch_beam_idx = batch_beam_sequence + beam_parent * batch_size\n", "        batch_beam_idx = batch_size * beam_parent + batch_beam_sequence\n", None),
 ]
+
+BLF = "rl4co/models/rl/reinforce/baselines.py"
+RFF = "rl4co/models/rl/reinforce/reinforce.py"
+SYMF = "rl4co/models/zoo/symnco/losses.py"
+CORPUS += [
+    # ---------------------------------------------------------------- C16
+    V("C16", "critic-baseline-not-detached", BLF, "        return v.detach(), F.mse_loss(v, c.detach())", "        return v, F.mse_loss(v, c.detach())", "C16.a"),
+    V("C16", "critic-loss-detached-value", BLF, "        return v.detach(), F.mse_loss(v, c.detach())", "        return v.detach(), F.mse_loss(v.detach(), c.detach())", "C16.a"),
+    V("C16", "exponential-not-detached", BLF, "        self.v = v.detach()  # Detach since we never want to backprop", "        self.v = v  # Detach since we never want to backprop", "C16.a"),
+    V("C16", "rollout-eval-with-grad", BLF, "        with torch.inference_mode():\n            reward = self.policy(td, env)[\"reward\"]\n        return reward, 0", "        reward = self.policy(td, env)[\"reward\"]\n        return reward, 0", "C16.a"),
+    V("C16", "reinforce-sign", RFF, "reinforce_loss = -(advantage * log_likelihood).mean()", "reinforce_loss = (advantage * log_likelihood).mean()", "C16.b"),
+    V("C16", "reinforce-advantage-reversed", RFF, "advantage = reward - bl_val  # advantage = reward - baseline", "advantage = bl_val - reward  # advantage = reward - baseline", "C16.b"),
+    V("C16", "reinforce-drops-bl-loss", RFF, "        loss = reinforce_loss + bl_loss\n", "        loss = reinforce_loss\n", "C16.b"),
+    V("C16", "reinforce-scaler-on-reward", RFF, "        advantage = reward - bl_val  # advantage = reward - baseline\n        advantage = self.advantage_scaler(advantage)", "        advantage = self.advantage_scaler(reward) - bl_val  # advantage = reward - baseline", "C16.b"),
+    V("C16", "shared-baseline-no-keepdim", BLF, "return reward.mean(dim=on_dim, keepdims=True), 0", "return reward.mean(dim=on_dim), 0", "C16.c"),
+    V("C16", "symnco-ps-no-keepdim", SYMF, "    advantage = reward - reward.mean(dim=dim, keepdim=True)\n    loss = -advantage * log_likelihood\n    return loss.mean()\n\n\ndef solution_symmetricity_loss", "    advantage = reward - reward.mean(dim=dim)\n    loss = -advantage * log_likelihood\n    return loss.mean()\n\n\ndef solution_symmetricity_loss", "C16"),
+    V("C16", "symnco-ss-sign", SYMF, "    loss = -advantage * log_likelihood\n    return loss.mean()\n\n\ndef invariance_loss", "    loss = advantage * log_likelihood\n    return loss.mean()\n\n\ndef invariance_loss", "C16.b"),
+    V("C16", "ppo-adv-not-detached", PPOF, "adv = previous_reward - value_pred.detach()", "adv = previous_reward - value_pred", "C16.a"),
+    V("C16", "ppo-clip-asymmetric", PPOF, "                            1 + self.ppo_cfg[\"clip_range\"],", "                            1 + 2 * self.ppo_cfg[\"clip_range\"],", "C16.b"),
+    V("C16", "ppo-max-instead-of-min", PPOF, "surrogate_loss = -torch.min(", "surrogate_loss = -torch.max(", "C16.b"),
+    V("C16", "ppo-entropy-sign", PPOF, '                        - self.ppo_cfg["entropy_lambda"] * entropy.mean()', '                        + self.ppo_cfg["entropy_lambda"] * entropy.mean()', "C16.b"),
+    V("C16", "ppo-value-loss-swapped-target", PPOF, "value_loss = F.huber_loss(value_pred, previous_reward)", "value_loss = F.huber_loss(value_pred, adv)", "C16.b"),
+    V("C16", "eq-reinforce-rearranged", RFF, "reinforce_loss = -(advantage * log_likelihood).mean()", "reinforce_loss = -(log_likelihood * advantage).mean()", None),
+    V("C16", "eq-critic-rename", BLF, "        v = self.critic(x).squeeze(-1)\n        # detach v since actor should not backprop through baseline, only for loss\n        return v.detach(), F.mse_loss(v, c.detach())", "        val = self.critic(x).squeeze(-1)\n        return val.detach(), F.mse_loss(val, c.detach())", None),
+]
